@@ -423,6 +423,14 @@ fn make_stream(rng: &mut Rng, resp: &[Vec<u8>]) -> (Vec<u8>, Vec<usize>) {
         }
         1 => s.extend_from_slice(b"* BOGUS line\r\n"),
         2 => s.extend_from_slice(b"garbage"),
+        3 if rng.chance(1, 4) => {
+            // nesting beyond the parser's budget: a parse Failure (not Error) reaches the codec
+            s.extend_from_slice(b"* 1 FETCH (BODYSTRUCTURE ");
+            for _ in 0..40 {
+                s.push(b'(');
+            }
+            s.extend_from_slice(b"\r\n");
+        }
         _ => {}
     }
     (s, bounds)
